@@ -14,7 +14,8 @@ def strs (l : List String) : Json := Json.arr (l.map (fun (s : String) => (s : J
 /-- whole-node scenario (tag "nodewire"): the model's outcome under `nodeWire`, rendered with the
 harness's key names; extra implementation keys are checked by the spec below -/
 def handle (inp impl : Json) : CaseResult :=
-  let wd : World := ⟨jbool inp "staked", jbool inp "allowed"⟩
+  let shape := jstr inp "bid_shape"
+  let wd : World := ⟨jbool inp "staked", jbool inp "allowed", shape == "" || shape == "valid", jstr inp "engine" != "reject"⟩
   let o := scenario nodeWire wd
   let ops := jbool inp "ops"
   let fate : TxFate := match jstr inp "ops_fault" with
@@ -36,6 +37,7 @@ def handle (inp impl : Json) : CaseResult :=
     ("commit_matches_tx", true),
     ("provider_address_ok", true),
     ("engine_saw", o.engineSaw),
+    ("api_refused", !wd.wellFormed),
     ("stake_tx_at", if ops && opTxSeen fate then "provider-node:" ++ tname nodeWire.stakeOp ++ ".registerAndStake:requested-value" else ""),
     ("prepay_tx_at", if ops && opTxSeen fate then "bidder-node:" ++ tname nodeWire.prepayOp ++ ".prepay:requested-value" else ""),
     ("stake_reported", if ops then report else ""),
@@ -43,7 +45,7 @@ def handle (inp impl : Json) : CaseResult :=
   let same (k : String) : Bool := (jobj impl k).compress == (jobj m k).compress
   let keys := ["started", "stake_reads_at", "allowance_reads_at", "other_reads", "stake_read_by", "allowance_read_by",
     "commit_txs_at", "commit_tx_from", "other_txs", "commitments", "commit_matches_tx", "provider_address_ok",
-    "engine_saw", "stake_tx_at", "prepay_tx_at", "stake_reported", "prepay_reported"]
+    "engine_saw", "api_refused", "stake_tx_at", "prepay_tx_at", "stake_reported", "prepay_reported"]
   let bad := keys.filter (fun k => !same k)
   { model := m, spec := bad.isEmpty && jstr impl "err" == "",
     why := if jstr impl "err" != "" then "whole-node-scenario-failed: " ++ jstr impl "err"
